@@ -281,10 +281,26 @@ def _sign(x, *a, **k):
     return out if out.ndim else out.item()
 
 
-def _isnan(x, *a, **k):
-    if not _isobj(x):
-        return _np.isnan(x, *a, **k)
-    return _np.zeros(_np.shape(x), dtype=bool)
+class _IsNan:
+    """np.isnan with an object-dtype path (ring values are never NaN).  Compares equal to the real
+    np.isnan, because felupe uses it as a sentinel default (`fx=np.isnan`, `if fx != np.isnan`)."""
+
+    def __call__(s, x, *a, **k):
+        if not _isobj(x):
+            return _np.isnan(x, *a, **k)
+        return _np.zeros(_np.shape(x), dtype=bool)
+
+    def __eq__(s, o):
+        return o is s or o is _np.isnan
+
+    def __ne__(s, o):
+        return not s.__eq__(o)
+
+    def __hash__(s):
+        return hash(_np.isnan)
+
+
+_isnan = _IsNan()
 
 
 def _abs(x, *a, **k):
